@@ -220,6 +220,23 @@ theorem C01_types_error_names_the_clash (ts : List TD) (e : Str) (h : generateTy
   obtain ⟨a, b, ha, hb, hae, hbe, hne⟩ := go_err ts [] e h
   exact ⟨a, by simpa using ha, b, hb, hae, hbe, hne⟩
 
+/-- The methods of a type (additional properties, union accessors) are generated for **exactly the declared types that
+need them, once each, in the order of the declarations**: the boilerplate generators and `GenerateTypes` take the same
+definition of every name. (A method declared twice, or for a type that is not declared, does not compile.) -/
+theorem C01_boilerplate_follows_declarations (needs : Nat → Bool) (ts out : List TD) (h : generateTypes ts = .ok out) :
+    boilerplate needs ts = out.filter fun t => needs t.body := by
+  have := go_firsts ts [] out h
+  simp only [List.reverse_nil, List.map_nil, List.nil_append] at this
+  rw [this]; rfl
+
+/-- Pre-repair witness (replayed on the code: C01 witnesses `shared-type-name-union`, `…-union-additional-properties`,
+repaired in /repo): the union generators took every collected definition, so one inline union under one `x-go-type-name` in
+two places was declared once and given its methods twice. -/
+theorem C01_union_boilerplate_old_witness :
+    generateTypes [⟨[76], 1⟩, ⟨[79], 2⟩, ⟨[76], 1⟩] = .ok [⟨[76], 1⟩, ⟨[79], 2⟩] ∧
+    boilerplateOld (· == 1) [⟨[76], 1⟩, ⟨[79], 2⟩, ⟨[76], 1⟩] = [⟨[76], 1⟩, ⟨[76], 1⟩] ∧
+    boilerplate (· == 1) [⟨[76], 1⟩, ⟨[79], 2⟩, ⟨[76], 1⟩] = [⟨[76], 1⟩] := by decide
+
 /-- non-vacuity: a repeated equal definition is folded, a differing one refused -/
 example : generateTypes [⟨[80], 1⟩, ⟨[81], 2⟩, ⟨[80], 1⟩] = .ok [⟨[80], 1⟩, ⟨[81], 2⟩] ∧
     generateTypes [⟨[80], 1⟩, ⟨[81], 2⟩, ⟨[80], 3⟩] = .error [80] := by decide
